@@ -47,6 +47,8 @@ def parse_type(text):
 
 
 def show_type(t, top=True):
+    if isinstance(t, tuple) and t[0] == 'MsgArgs':
+        return 'Unit'
     if isinstance(t, tuple):
         s = ('List ' if t[0] == 'List' else 'Option ') + show_type(t[1], False)
         return s if top else '(%s)' % s
@@ -400,10 +402,10 @@ class SockTranslator:
 
     def _percent(self, node, fl):
         if not (isinstance(node.left, ast.Constant) and type(node.left.value) is str):
-            raise Unsupported(node, '% whose left operand is not a string literal')
+            raise Unsupported(node, 'percent-format whose left operand is not a string literal')
         specs = re.findall(r'%(.)', node.left.value)
         if any(c not in 'sr' for c in specs):
-            raise Unsupported(node, '% conversion other than %s / %r')
+            raise Unsupported(node, 'percent-format conversion other than s / r')
         if isinstance(node.right, ast.Tuple):
             n = len(node.right.elts)
             for e in node.right.elts:
@@ -417,9 +419,9 @@ class SockTranslator:
             elif t in ('Int', 'Time', 'Bool'):      # a bytes / tuple right operand would be unpacked or rejected by %
                 n = 1
             else:
-                raise Unsupported(node, '% with a right operand of type %s' % (t,))
+                raise Unsupported(node, 'percent-format with a right operand of type %s' % (t,))
         if n != len(specs):
-            raise Unsupported(node, '% with %d conversions and %d arguments' % (len(specs), n))
+            raise Unsupported(node, 'percent-format with %d conversions and %d arguments' % (len(specs), n))
         return '()', 'Msg'
 
     def _compare(self, node, fl):
@@ -636,11 +638,8 @@ class SockTranslator:
             if name == 'self' or name in self.consts or name == self.sentinel or name == self.sock_alias:
                 raise Unsupported(t, 'assignment to %s' % name)
             if name not in self.vars:
-                if vt == 'NoneLit' or (isinstance(vt, tuple) and vt[0] == 'MsgArgs'):
-                    vt2 = 'Msg' if vt != 'NoneLit' else None
-                    if vt2 is None:
-                        raise Unsupported(t, 'local bound to None first')
-                    vt = vt2
+                if vt == 'NoneLit':
+                    raise Unsupported(t, 'local bound to None first')
                 self._new_field(name, vt, name)
                 if vt == ('List', 'Bytes'):
                     self.fresh.add(name)
@@ -720,8 +719,7 @@ class SockTranslator:
                     raise Unsupported(v, 'and / or used for its operand value')
                 vt_text, vt = self._expr(v, fl)
             k, f, ft, name = self.target(t, vt, fl, st)
-            vt_text = self.coerce(vt_text, vt, ft, v, fl) if vt != ft and not (
-                isinstance(vt, tuple) and vt[0] == 'MsgArgs' and ft == 'Msg') else vt_text
+            vt_text = self.coerce(vt_text, vt, ft, v, fl) if vt != ft else vt_text
             pairs.append((k, f, vt_text))
             if name:
                 names.append(name)
